@@ -174,10 +174,12 @@ impl<T> Receiver<T> {
         Ok(pop(self.c(), unsafe { *self.bufp }))
     }
     pub fn try_recv(&self) -> Result<T, TryRecvError> {
+        vs::schedule_point(vs::S_Q_RECV);
         if self.c().len == 0 { return Err(if self.c().senders == 0 { TryRecvError::Disconnected } else { TryRecvError::Empty }); }
         Ok(pop(self.c(), unsafe { *self.bufp }))
     }
     pub fn iter(&self) -> Iter<'_, T> { Iter { r: self } }
+    pub fn try_iter(&self) -> TryIter<'_, T> { TryIter { r: self } }
     pub fn vk_chan(&self) -> ChanView<'_, T> { ChanView { c: self.c(), buf: unsafe { *self.bufp } } }
     pub fn vk_set_class(&self, c: u8) { self.c().class = c as u64; }
     pub fn len(&self) -> usize { self.c().len as usize }
@@ -192,6 +194,8 @@ impl<T> Drop for Receiver<T> {
     }
 }
 
+pub struct TryIter<'a, T> { r: &'a Receiver<T> }
+impl<'a, T> Iterator for TryIter<'a, T> { type Item = T; fn next(&mut self) -> Option<T> { self.r.try_recv().ok() } }
 pub struct Iter<'a, T> { r: &'a Receiver<T> }
 impl<'a, T> Iterator for Iter<'a, T> { type Item = T; fn next(&mut self) -> Option<T> { self.r.recv().ok() } }
 
